@@ -52,9 +52,34 @@ func (e event) String() string {
 // Sentinel errors owned by the harness.
 var (
 	errSendFail = errors.New("harness: send failed")
+	// send failures that carry a context error although the call's context is
+	// alive (a transport with its own deadline / shutdown): the engine treats
+	// context.Canceled from a retransmission differently from other errors
+	errSendCanceled = &injectedErr{"canceled", context.Canceled}
+	errSendDeadline = &injectedErr{"deadline", context.DeadlineExceeded}
 	errDecode   = errors.New("harness: decode failed")
 	errDrop     = errors.New("harness: drop failed")
 )
+
+type injectedErr struct {
+	kind string
+	base error
+}
+
+func (e *injectedErr) Error() string { return "harness: send failed: " + e.base.Error() }
+func (e *injectedErr) Unwrap() error { return e.base }
+
+// sendFailure maps a failure kind (1 plain, 2 context.Canceled, 3 DeadlineExceeded)
+// to the error returned by the send fake and its event label.
+func sendFailure(kind int) (error, string) {
+	switch kind {
+	case 2:
+		return errSendCanceled, "fail-canceled"
+	case 3:
+		return errSendDeadline, "fail-deadline"
+	}
+	return errSendFail, "fail"
+}
 
 type rpcError struct{ call int }
 
@@ -98,6 +123,7 @@ type callCfg struct {
 	SeqNo      int32
 	DecodeFail bool
 	FailSendAt int // transmission index that fails when sends are not gated (-1 none)
+	FailKind   int // 0/1 plain error, 2 context.Canceled, 3 context.DeadlineExceeded (context of the call NOT done)
 	DropFail   bool
 	Out        int // output index (calls created by redo share the output of their parent)
 }
@@ -399,13 +425,15 @@ func (w *world) send(ctx context.Context, msgID int64, seqNo int32, in bin.Encod
 			w.ev("send.exit", ci, k, "ctxerr")
 			return cerr
 		}
-		if o == 1 {
-			w.ev("send.exit", ci, k, "fail")
-			return errSendFail
+		if o >= 1 {
+			ferr, label := sendFailure(o)
+			w.ev("send.exit", ci, k, label)
+			return ferr
 		}
 	} else if ci >= 0 && w.calls[ci].cfg.FailSendAt == k {
-		w.ev("send.exit", ci, k, "fail")
-		return errSendFail
+		ferr, label := sendFailure(w.calls[ci].cfg.FailKind)
+		w.ev("send.exit", ci, k, label)
+		return ferr
 	}
 	w.ev("send.exit", ci, k, "ok")
 	return nil
@@ -513,9 +541,12 @@ func (t *fakeTimer) Reset(d time.Duration) {
 func classifyErr(w *world, ci int, err error) string {
 	var rl *rpc.RetryLimitReachedErr
 	var re *rpcError
+	var ie *injectedErr
 	switch {
 	case err == nil:
 		return "nil"
+	case errors.As(err, &ie):
+		return "senderr-" + ie.kind
 	case errors.Is(err, rpc.ErrEngineClosed):
 		return "closed-retryable"
 	case errors.As(err, &rl):
